@@ -47,6 +47,16 @@ pub fn seeds(ep: &str) -> Vec<Vec<u8>> {
         "cli_parse" => vec![s("--port=7878\n--ip=127.0.0.1\n-t=4\n--cors-allow-origins=https://a.example,https://b.example"), s("-p=1\n--unknown=2\n=\n--"), s("--port")],
         "range_multipart_body" => vec![s("--String_separator\r\nContent-Type: text/plain\r\nContent-Range: bytes 0-1/10\r\n\r\nab\r\n--String_separator\r\nContent-Type: text/plain\r\nContent-Range: bytes 4-5/10\r\n\r\nef\r\n--String_separator")],
         "range_in_content_range" => vec![s("0-1"), s("5-"), s("-3"), s(" 2 - 4 ")],
+        "response_parse_legacy" => vec![
+            s("HTTP/1.1 200 OK\r\nContent-Type: text/plain\r\nContent-Range: bytes 0-4/5\r\nContent-Length: 5\r\n\r\nhello"),
+            s("HTTP/1.1 206 Partial Content\r\nContent-Type: multipart/byteranges; boundary=String_separator\r\nContent-Length: 190\r\n\r\n--String_separator\r\nContent-Type: text/plain\r\nContent-Range: bytes 0-1/10\r\n\r\nab\r\n--String_separator\r\nContent-Type: text/plain\r\nContent-Range: bytes 4-5/10\r\n\r\nef\r\n--String_separator\r\n"),
+            s("HTTP/1.1 404 Not Found\r\n\r\n")],
+        "status_line_legacy" => vec![s("HTTP/1.1 200 OK"), s("HTTP/1.0 404 Not Found\r\n"), s("HTTP/2.0 500 Internal Server Error")],
+        "request_line" => vec![s("GET /a.txt HTTP/1.1"), s("POST /x?y=1#z HTTP/1.0\r\n"), s("OPTIONS * HTTP/2.0")],
+        "request_header_line" | "header_parse_header" => vec![s("Host: localhost"), s("Content-Type: text/html; charset=utf-8\r\n"), s("X:"), s("A: b: c")],
+        "request_target_path" | "request_target_query" => vec![s("/a/b.txt?x=1&y=%20#frag"), s("/"), s("/p?"), s("*")],
+        "percent_decode" => vec![s("a%20b%2Fc%E2%82%AC"), s("%"), s("%4"), s("100%25")],
+        "mime_detect" => vec![s("/a/b.tar.gz"), s("/x.HTML?y=z.png"), s("noext"), s(".hidden")],
         "base64_decode_sequence" => vec![s("TWFu"), s("TQ=="), s("TWE=")],
         "json_array_f64" => vec![s("[0.0, -1.5, 1e21, 5e-324]"), s("[1]"), s("[.5, 5., 1e, -]"), s("[NaN, Infinity]")],
         "json_array_string" => vec![s("[\"a\", \"b c\", \"\"]"), s("[\"\\\"q\\\"\", \"\\\\\"]"), s("[\"\u{e9}\"]"), s("[\"unterminated]")],
@@ -249,6 +259,23 @@ fn call(ep: &str, input: &[u8]) -> Option<bool> {
             Range::parse_multipart_body(&mut cursor, vec![]).is_ok()
         }
         "range_in_content_range" => Range::parse_range_in_content_range(100, &text(input)?).is_ok(),
+        // the remaining public readers: the legacy ("_"-prefixed) response reader, the line-level readers of requests and
+        // responses, the request-target accessors, percent decoding and the media type lookup
+        "response_parse_legacy" => { let _ = Response::_parse_response(input); true }
+        "status_line_legacy" => Response::_parse_http_version_status_code_reason_phrase_string(&text(input)?).is_ok(),
+        "request_line" => Request::parse_method_and_request_uri_and_http_version_string(&text(input)?).is_ok(),
+        "request_header_line" => { let _ = Request::parse_http_request_header_string(&text(input)?); true }
+        "header_parse_header" => Header::parse_header(&text(input)?).is_ok(),
+        "request_target_path" => {
+            let r = Request { method: "GET".to_string(), request_uri: text(input)?, http_version: "HTTP/1.1".to_string(), headers: vec![], body: vec![] };
+            r.get_uri_path().is_ok()
+        }
+        "request_target_query" => {
+            let r = Request { method: "GET".to_string(), request_uri: text(input)?, http_version: "HTTP/1.1".to_string(), headers: vec![], body: vec![] };
+            r.get_uri_query().is_ok()
+        }
+        "percent_decode" => { let _ = rws::url::URL::percent_decode(&text(input)?); true }
+        "mime_detect" => { let _ = rws::mime_type::MimeType::detect_mime_type(&text(input)?); let _ = rws::mime_type::MimeType::get_extension_from_filename(&text(input)?); true }
         "base64_decode_sequence" => Base64::decode_sequence(text(input)?).is_ok(),
         "json_array_f64" => JSONArrayOfFloats::parse_as_list_f64(text(input)?).is_ok(),
         "json_array_string" => JSONArrayOfStrings::parse_as_list_string(text(input)?).is_ok(),
